@@ -319,12 +319,12 @@ def check_serial(report: Report, tier: str) -> dict:
     import Reduino.Communication as C
     from Reduino.Communication import SerialMonitor
 
-    values = [0, -5, 3.5, True, None, "", "héllo", "a\nb", [1, 2], (1,), {"k": 1}, 1e-7, 10 ** 20, b"x", "tab\t", float("inf")]
+    values = [0, -5, 3.5, True, None, "", "héllo", "a\nb", "ready\n", "\n", "x\r\n", [1, 2], (1,), {"k": 1}, 1e-7, 10 ** 20, b"x", "tab\t", float("inf")]
     n = 0
     saved = getattr(C, "serial", None)
     try:
         for k in (1, 2):
-            for seq in itertools.product(values, repeat=k) if k == 1 or tier == "thorough" else itertools.product(values[:6], repeat=2):
+            for seq in itertools.product(values, repeat=k) if k == 1 or tier == "thorough" else itertools.product(values[:10], repeat=2):
                 n += 1
                 fake = _FakeSerialModule()
                 C.serial = fake
